@@ -25,15 +25,16 @@ Fixpoint is_prefix (p s : name) : bool :=
 Inductive dir := DIn | DOut.
 
 (* which family of per-endpoint chains a dispatch chain hands over to *)
-Inductive epkind := KWlFrom | KWlTo | KHostFrom | KHostTo | KHostFromFwd | KHostToFwd.
+Inductive epkind := KWlFrom | KWlTo | KHostFrom | KHostTo | KHostFromFwd | KHostToFwd
+  | KSetMark.   (* cali-set-endpoint-mark: hands over to the per-endpoint cali-sm-<iface> chains *)
 
 Definition kind_num (k : epkind) : N :=
-  match k with KWlFrom => 0 | KWlTo => 1 | KHostFrom => 2 | KHostTo => 3 | KHostFromFwd => 4 | KHostToFwd => 5 end.
+  match k with KWlFrom => 0 | KWlTo => 1 | KHostFrom => 2 | KHostTo => 3 | KHostFromFwd => 4 | KHostToFwd => 5 | KSetMark => 6 end.
 Definition epkind_eqb (a b : epkind) : bool := N.eqb (kind_num a) (kind_num b).
 
 (* "from" chains look at the incoming interface, "to" chains at the outgoing one *)
 Definition kind_dir (k : epkind) : dir :=
-  match k with KWlFrom | KHostFrom | KHostFromFwd => DIn | _ => DOut end.
+  match k with KWlFrom | KHostFrom | KHostFromFwd | KSetMark => DIn | _ => DOut end.
 
 (* chain identities.  CRoot k is the dispatch chain of kind k (e.g. cali-from-wl-dispatch),
    CChild k s the child chain "<root>-<s>", CEp k n the per-endpoint chain
@@ -57,7 +58,8 @@ Inductive imatch :=
 | MIface (d : dir) (pat : name).   (* pat is the text the renderer produced, wildcard char included *)
 
 Inductive action :=
-| AGoto (c : cid) | AJump (c : cid) | AReturn | ADrop | AReject | AAccept.
+| AGoto (c : cid) | AJump (c : cid) | AReturn | ADrop | AReject | AAccept
+| ASetMark (mark mask : N).   (* non-terminating: set the masked mark and carry on with the next rule *)
 
 Inductive rule :=
 | Rule (m : imatch) (a : action)
@@ -72,6 +74,7 @@ Record packet := { p_in : name; p_out : name }.
 Inductive result :=
 | RDrop | RReject | RAccept
 | RReturn                          (* fell off / returned from the dispatch chain to its caller *)
+| RReturnMarked (mark mask : N)    (* returned to the caller after a set-mark rule fired *)
 | REndpoint (k : epkind) (n : name) (* handed to the per-endpoint chain of kind k for interface n *)
 | RUndef                           (* reference to a chain or map that is not defined *)
 | RFuel.
@@ -135,6 +138,10 @@ Fixpoint run (fuel : nat) (wc : N) (rs : ruleset) (pk : packet)
         | AReturn => run f wc rs pk [] stack
         | AGoto c => enter c stack
         | AJump c => enter c (rest :: stack)
+        | ASetMark mk msk => match run f wc rs pk rest stack with
+                             | RReturn => RReturnMarked mk msk
+                             | r => r
+                             end
         end in
       match cur with
       | [] => match stack with
@@ -184,6 +191,7 @@ Definition action_eqb (a b : action) : bool :=
   | AGoto c, AGoto c' => cid_eqb c c'
   | AJump c, AJump c' => cid_eqb c c'
   | AReturn, AReturn | ADrop, ADrop | AReject, AReject | AAccept, AAccept => true
+  | ASetMark a1 a2, ASetMark b1 b2 => N.eqb a1 b1 && N.eqb a2 b2
   | _, _ => false
   end.
 
@@ -215,5 +223,6 @@ Definition result_eqb (a b : result) : bool :=
   match a, b with
   | RDrop, RDrop | RReject, RReject | RAccept, RAccept | RReturn, RReturn | RUndef, RUndef | RFuel, RFuel => true
   | REndpoint k n, REndpoint k' n' => epkind_eqb k k' && name_eqb n n'
+  | RReturnMarked a1 a2, RReturnMarked b1 b2 => N.eqb a1 b1 && N.eqb a2 b2
   | _, _ => false
   end.
